@@ -314,3 +314,16 @@ class SympyCondition(Condition):
                 # Measurements get prepended with "m_", so the condition needs to be too.
                 return f'm_{self.expr.lhs}=={self.expr.rhs}'
         raise ValueError('QASM is defined only for SympyConditions of type key == constant.')
+
+    def _qasm_(self, args: cirq.QasmArgs, **kwargs) -> str | None:
+        text = self.qasm
+        meas_id = args.meas_key_id_map.get(str(self.expr.lhs))
+        if meas_id is None:
+            return text
+        # Cirq reads the measured bits as a big-endian integer, whereas OpenQASM compares the
+        # register as an integer whose lowest bit is bit 0 (the first measured qubit).
+        value = int(self.expr.rhs)
+        bitcount = args.meas_key_bitcount.get(meas_id, 1)
+        if 0 <= value < 2**bitcount:
+            value = int(format(value, f'0{bitcount}b')[::-1], 2)
+        return f'{meas_id}=={value}'
